@@ -5,7 +5,7 @@ VERIF_DIR="$(cd "$(dirname "$0")" && pwd)"
 . "$VERIF_DIR/env.sh"
 mkdir -p "$VERIF_DIR/bin"
 cd "$VERIF_DIR/checker"
-if [ -x "$VERIF_DIR/bin/kpverify" ] && [ -z "$(find . -newer "$VERIF_DIR/bin/kpverify" -type f \( -name '*.go' -o -name 'go.mod' -o -name 'go.sum' \) | head -1)" ]; then
+if [ -x "$VERIF_DIR/bin/kpverify" ] && [ -z "$(find . -newer "$VERIF_DIR/bin/kpverify" -type f \( -name '*.go' -o -name 'go.mod' -o -name 'go.sum' -o -name '*.txt' \) | head -1)" ]; then
   exit 0
 fi
 go build -o "$VERIF_DIR/bin/kpverify.tmp.$$" . && mv "$VERIF_DIR/bin/kpverify.tmp.$$" "$VERIF_DIR/bin/kpverify"
